@@ -348,13 +348,6 @@ __CPROVER_assigns(e, int_data, float_data)
 __CPROVER_loop_invariant(1 == 1)
 __CPROVER_decreases(e)
 """
-# string branch: see contracts/C04_string.h
-STRING_LOOP = """
-__CPROVER_assigns(verif_exc, r->offset, data->size, __CPROVER_object_whole(data->data), C04_STREAM_GHOSTS)
-__CPROVER_loop_invariant(C04_STRING_LOOP_INV(r, data))
-__CPROVER_decreases(C04_STRING_LOOP_VARIANT(r, data))
-"""
-
 
 def parse_units(ctx, src):
     arms, else_block, fbody, starts, end, peek = parse_chain(src)
@@ -383,11 +376,10 @@ def parse_units(ctx, src):
     # string branch (whole) and the body of its loop
     srules = rr + STR_RULES + SET_RULES[2:3] + [Lower(READER_MAYTHROW)]
     emit(u, 'void JSON_parse_string(StringReader* r, JSONV* ret, vstr* data)', arms[3][1], 'JSON::parse string branch', CC,
-         rules=srules, ret_zero='', loops={1: STRING_LOOP}, nloops=1, desc=PARSE + ' :: string branch')
+         rules=srules, ret_zero='', nloops=1, desc=PARSE + ' :: string branch')
     _, step, _, _ = lex.find_block(arms[3][1], r"while \(r\.get_s8\(false\) != '[^']*'\)", 'string loop')
     emit(u, 'void JSON_parse_string_step(StringReader* r, vstr* data)', step, 'JSON::parse string loop body', CC,
          rules=rr + STR_RULES[1:] + [Lower(READER_MAYTHROW)], ret_zero='', desc=PARSE + ' :: string branch :: loop body')
-    sg = lex.find_block(arms[3][1], r"while \((r\.get_s8\(false\) != '[^']*')\)", 'string loop')[0]
     # constants: the tail of the chain, verbatim
     tail = '{ ' + fbody[starts[4]:end] + ' }'
     emit(u, 'void JSON_parse_const(StringReader* r, bool disable_extensions, JSONV* ret)', tail, 'JSON::parse constants tail', CC,
@@ -608,32 +600,43 @@ def plan(ctx):
                                 entry='h_int_roundtrip', function='JSON::serialize case 2 (int64) -> JSON::parse number branch', loops=True,
                                 defines=D + ['C04_INT_HEX=%d' % hexa, 'C04_INT_MIN=%d' % mn, 'C04_INT_LOCKSTEP=1'], kind='loop-contract',
                                 cbmc_flags=['--unwind', '21', '--unwinding-assertions'], min_post=7, timeout=600, stage1=60,
-                                fallback_unwind=21, replay=RP('int_roundtrip', small_define='VERIF_SMALL')))
-    groups.append(Group(name='JSON.const.roundtrip', harness=HS, entry='h_const_roundtrip', function='JSON::serialize case 0/1 -> JSON::parse null/true/false arms',
+                                fallback_unwind=21, replay=RP('int_roundtrip', small_define='VERIF_SMALL'),
+                                clause_note='parse(serialize(int v)) == v, int kind, whole text consumed, no exception, no signed overflow / undefined shift on the way; '
+                                            'scanner loops under lock-step loop contracts (contracts/C04_number.h)'))
+    groups.append(Group(name='JSON.const.roundtrip', clause_note='serialize(null|true|false) under any options is parsed back to the same constant, consumed entirely; without ONE_CHARACTER_TRIVIAL_CONSTANTS it is the RFC 8259 literal name',
+                        harness=HS, entry='h_const_roundtrip', function='JSON::serialize case 0/1 -> JSON::parse null/true/false arms',
                         defines=list(D), kind='loop-free', min_post=6, replay=RP('const_roundtrip')))
     HT = 'harness/C04/strings.c'
-    groups.append(Group(name='JSON.string.char_lemma', harness=HT, entry='h_char_lemma', function='JSON::escape_string loop body / JSON::parse string loop body',
+    groups.append(Group(name='JSON.string.char_lemma', clause_note='harness/C04/strings.c h_char_lemma: group of b is 1..6 bytes, not starting with a quote, == C04_ESC(b, mode), RFC item in STANDARD mode; one parser iteration consumes exactly it and appends b',
+                        harness=HT, entry='h_char_lemma', function='JSON::escape_string loop body / JSON::parse string loop body',
                         defines=list(D), kind='loop-free', min_post=8, replay=RP('char_roundtrip')))
-    groups.append(Group(name='JSON.escape_string.body', harness=HT, entry='h_escape_char', function='JSON::escape_string (loop body, one character)',
+    groups.append(Group(name='JSON.escape_string.body', clause_note='contracts/C04_string.h JSON_escape_char: appends exactly C04_ESC(ch, mode); bytes below the old size untouched',
+                        harness=HT, entry='h_escape_char', function='JSON::escape_string (loop body, one character)',
                         enforce='JSON_escape_char', defines=list(D), kind='loop-free', min_post=2, timeout=300, replay=RP('char_roundtrip')))
-    groups.append(Group(name='JSON.escape_string', harness=HT, entry='h_escape_string', function='JSON::escape_string', enforce='JSON_escape_string',
+    groups.append(Group(name='JSON.escape_string', clause_note='contracts/C04_string.h JSON_escape_string: group of s[k] at [POS(k), POS(k+1)), POS(0) = old size, POS(n) = new size, for a ghost index k',
+                        harness=HT, entry='h_escape_string', function='JSON::escape_string', enforce='JSON_escape_string',
                         replace=['JSON_escape_char'], loops=True, defines=list(D), kind='loop-contract', min_post=5, timeout=600, stage1=30,
                         replay=RP('string_roundtrip', small_define='VERIF_SMALL'), fallback_unwind=10))
-    groups.append(Group(name='JSON.string.induction_step', harness=HT, entry='l_string_step', function='JSON::escape_string (contract) / JSON::parse string loop body',
+    groups.append(Group(name='JSON.string.induction_step', clause_note='one real iteration of the parser string loop at POS(k) over the contract of escape_string: no exception, cursor at POS(k+1), appends s[k], keeps earlier characters',
+                        harness=HT, entry='l_string_step', function='JSON::escape_string (contract) / JSON::parse string loop body',
                         replace=['JSON_escape_string'], defines=list(D), kind='lemma', min_post=5, timeout=300))
-    groups.append(Group(name='JSON.string.serialize_arm', harness=HT, entry='l_string_arm', function='JSON::serialize case 4 (string)',
+    groups.append(Group(name='JSON.string.serialize_arm', clause_note='serialize(string) = quote + escape_string(s, mode of the options) + quote; selects the string branch of parse',
+                        harness=HT, entry='l_string_arm', function='JSON::serialize case 4 (string)',
                         replace=['JSON_escape_string'], defines=list(D), kind='lemma', min_post=7, timeout=300))
     groups.append(Group(name='JSON.string.roundtrip[len<=2]', harness=HT, entry='h_string_bounded', function='JSON::serialize case 4 -> JSON::parse string branch',
                         defines=D + ['C04_STRMAX=2'], kind='bounded', bound='strings of at most 2 bytes (every byte value, every option set); loops unwound 4 times',
                         cbmc_flags=['--unwind', '4', '--unwinding-assertions'], min_post=5, timeout=600, stage1=60, replay=RP('string_roundtrip')))
     HC = 'harness/C04/containers.c'
     AB = D + ['C04_EMIT_ABSTRACT=1']
-    groups.append(Group(name='JSON.serialize.list', harness=HC, entry='h_ser_list', function='JSON::serialize case 5 (list)', enforce='JSON_ser_list', loops=True,
+    groups.append(Group(name='JSON.serialize.list', clause_note='contracts/C04_container.h: the emitted tokens are accepted by the RFC 8259 array automaton, one value per element, children with the parent options, list order',
+                        harness=HC, entry='h_ser_list', function='JSON::serialize case 5 (list)', enforce='JSON_ser_list', loops=True,
                         defines=AB + ['C04_DICT=0'], kind='loop-contract', min_post=5, timeout=300, fallback_unwind=6,
                         replay=RP('list_roundtrip', small_define='VERIF_SMALL')))
-    groups.append(Group(name='JSON.serialize.dict.add_key', harness=HC, entry='h_add_key', function='JSON::serialize case 6 (dict), lambda add_key',
+    groups.append(Group(name='JSON.serialize.dict.add_key', clause_note='contracts/C04_container.h: add_key emits [,] ws "key" : ws value and moves the object automaton from open/after-value to after-value',
+                        harness=HC, entry='h_add_key', function='JSON::serialize case 6 (dict), lambda add_key',
                         enforce='JSON_ser_dict_add_key', defines=AB + ['C04_DICT=1'], kind='loop-free', min_post=1, timeout=300))
-    groups.append(Group(name='JSON.serialize.dict', harness=HC, entry='h_ser_dict', function='JSON::serialize case 6 (dict)', enforce='JSON_ser_dict',
+    groups.append(Group(name='JSON.serialize.dict', clause_note='contracts/C04_container.h: the emitted tokens are accepted by the RFC 8259 object automaton, one member per entry, with and without SORT_DICT_KEYS',
+                        harness=HC, entry='h_ser_dict', function='JSON::serialize case 6 (dict)', enforce='JSON_ser_dict',
                         replace=['JSON_ser_dict_add_key'], loops=True, defines=AB + ['C04_DICT=1'], kind='loop-contract', min_post=5, timeout=300, fallback_unwind=6,
                         replay=RP('dict_roundtrip', small_define='VERIF_SMALL')))
     for k, nm in ((0, 'list'), (1, 'dict')):
@@ -644,13 +647,85 @@ def plan(ctx):
     return groups
 
 
-EXPLANATION = ''
-TRUSTED = []
-ASSUMPTIONS = []
-DROPS = ''
-NOT_DECIDED = []
+EXPLANATION = (
+    'Proof per piece, composition by lemma (no whole-parser query). Every piece is cut from src/JSON.cc on every run: the arms of JSON::serialize '
+    '(switch cases 0..6, the lambda add_key, the escape-mode selection), JSON::escape_string and its loop body, and from JSON::parse the dispatch '
+    'chain, the number branch, the string branch and the body of its loop, the null/true/false tail, the list and dict branches and '
+    'skip_whitespace_and_comments; the StringReader accessors are the extraction of C01/C02, inlined. Exceptions are lowered to verif_exc with '
+    'propagation after may-throw calls and a structural lowering of the two try/catch blocks. '
+    'STRINGS: char lemma (loop-free, every byte x 3 modes: the bytes escape_string emits for b are consumed by exactly one iteration of the '
+    'parser\'s string loop, which appends exactly b); contract of the loop body and loop contract of escape_string (string length unbounded: the '
+    'output is the contiguous sequence of the groups C04_ESC(s[k], mode)); induction step composed from that contract and the real parser loop '
+    'body at an arbitrary index k of a string of any length; string arm lemma (quotes, POS(0), closing quote); bounded end-to-end run for |s| <= 2. '
+    'INTEGERS: the decimal and the hexadecimal scanner under lock-step loop contracts (accumulator == value of the consumed prefix of the '
+    'canonical numeral of v, numeral = trusted model of to_string / "%" PRIX64), for every int64, INT64_MIN as its own group, signed-overflow and '
+    'shift checks ON inside the extracted code. CONSTANTS: loop-free, options symbolic. FLOATS: syntactic, bounded by the %g grammar (<= 13 '
+    'characters): text is an RFC 8259 number, consumed entirely by the number branch, float kind. CONTAINERS: list arm, dict arm and add_key '
+    'under contract over token emitters with a ghost RFC 8259 array/object acceptor (element count, indentation, child sizes unbounded, options '
+    'symbolic: `[` V (`,` V)* `]` / `{` S `:` V ... `}` with optional whitespace, one V per element, children with the parent\'s options, list '
+    'order kept); bounded end-to-end run (<= 2 elements) against the real container loops of the parser in both parser modes. '
+    'Strict mode (disable_extensions) is required to accept exactly the text produced without the four options that src/JSON.hh documents as '
+    'non-standard; every scalar text produced without them is additionally checked against the RFC 8259 grammar written as specification.')
+TRUSTED = [
+    'stubs/C04_json.h: JSON value model (variant index + payload; the order of the alternatives is read from src/JSON.hh each run), std::string '
+    'literal append / find, isdigit / isxdigit ("C" locale), containers abstracted to their element count',
+    'stubs/C04_printf.h: per-format models written from ISO C 7.21.6.1: "%0<W>[hh|h]X" of a char argument (format string decomposed from the source '
+    'text each run), "%" PRIX64 and std::to_string(int64) as the canonical numeral of the value (decimal digits chosen by the solver, constrained '
+    'by their Horner value), "%g" as "some text of the %g output grammar" (no numeric relation)',
+    'stubs/C04_libc.h: memcmp with a body for the literal lengths used by skip_if; stubs/C04_emit.h: token emitters + the RFC 8259 array/object acceptor',
+    'spec/C04_rfc8259.h (number grammar, string items, literal names of RFC 8259; the %g output language of ISO C), spec/C04_escape.h (cut formula between '
+    'escape_string and the parser: proved on both sides, so a mistake in it cannot make the round trip pass wrongly)',
+    'props/C04.py Lower: exception propagation and try/catch lowering (structural; handler for out_of_range, rethrown as parse_error); Concat: '
+    '`ret += a + b + c` -> one emitter call per term, left to right; LoopBodyToCall: the body of the range-for of escape_string as a callee',
+    'contracts/RW_*.h, stubs/vstr.h, stubs/libc.h and the StringReader extraction of props/rw_common.py (C01/C02)',
+]
+ASSUMPTIONS = [
+    'std::string growth succeeds (capacity model; in the abstract container proofs "the text fits in memory" is an assume of the emitters)',
+    'a child serialization is never empty (each arm of serialize returns at least one character: shown for every scalar arm and the bracketed containers)',
+    'the keys of a dictionary are pairwise distinct (type invariant of unordered_map), so map/unordered_map emplace inserts every member',
+    'floats: only texts of the %g grammar for finite values; NaN / infinity are outside the property',
+    'string / element counts below 2^44 resp. 2^60 (cbmc object size limit; lemma harnesses allocate at most 2^20 characters)',
+]
+DROPS = ('std::string results -> vstr out-parameters (escape_string appends to the string it is given); references -> pointers; JSON value -> JSONV model, '
+         'holds_alternative / get -> kind test / field; `ret = x` in parse -> JSONV_set_*; range-for -> index loops; the lambda add_key -> a function of its '
+         'captures; std::map copy under SORT_DICT_KEYS -> member count; recursive serialize / parse calls -> child tokens; default arguments made explicit; '
+         'string_printf / to_string -> per-format models; throw / try / catch -> verif_exc flag; the exponent loops of the number branch are always '
+         'abstracted by a loop contract that havocs what they assign; the `default:` arm of serialize (unreachable for a well-formed variant) is not extracted')
+NOT_DECIDED = [
+    'numeric closeness of a parsed float to the original (six significant digits): floating-point loop arithmetic of the number branch and the '
+    'value printf("%g") denotes are outside this family -- only "consumed entirely, float kind, RFC number" is decided, bounded by the %g grammar',
+    'operator<=> / operator== and the deep copy (std::variant, unique_ptr, unordered_map semantics: nothing of phosg is left after the stubs); '
+    'equality is decided per scalar payload (kind + value / bytes) and per element count only',
+    'agreement with an independent JSON implementation: replaced by the RFC 8259 grammar as specification; for bytes >= 0x80 STANDARD mode '
+    'writes \\u00XX, which RFC 8259 reads as the code point U+00XX -- identifying it with the byte XX is phosg\'s convention',
+    're-serialization reproduces the text exactly: follows from determinism of serialize on equal values, not stated as an obligation; key order under '
+    'SORT_DICT_KEYS (std::map ordering) is not modelled',
+    'the unbounded string theorem parse_string(quote + escape(s) + quote) == s is an induction over the character index whose step, base and closure '
+    'are obligations (induction_step, serialize_arm, escape_string, bounded run) but whose induction itself is a meta-argument; the parser\'s string '
+    'loop and container loops are exercised as loops only in the bounded runs (their unbounded acceptance is C05\'s obligation)',
+    'nested containers: children are opaque value tokens; the recursion is covered by structural induction over the value (argument, not a query)',
+    'the exponent value of exponent-form floats and integer overflow of int_data inside the exponent loops (C05, defect #8)',
+]
 CLAIMED = True
-MANIFEST = dict(category='proof', text='', note='', technique='')
+MANIFEST = dict(
+    category='proof',
+    text=('Per piece, on text cut from src/JSON.cc each run: (strings) for every byte and each of the three escape modes the bytes escape_string emits '
+          'are decoded by exactly one iteration of the parser\'s string loop back to that byte; escape_string under a loop contract (unbounded length) '
+          'emits the contiguous sequence of those groups; composed induction step at an arbitrary index of an arbitrary string; (integers) the decimal '
+          'and hexadecimal scanners under lock-step loop contracts give parse(serialize(v)) == v for every int64 with overflow checks on, INT64_MIN '
+          'separately; (constants) null/true/false and the one-character option against the skip_if arms; (floats, bounded by the %g grammar, '
+          'syntactic) the float arm yields an RFC 8259 number that the number branch consumes entirely as a float; (containers) list/dict arms and '
+          'add_key under contract against a ghost RFC 8259 array/object acceptor for all option sets, unbounded in element count, plus bounded '
+          'end-to-end runs against the parser\'s container loops in strict and default mode.'),
+    note=('Trusted: cbmc, the answering solver, the extractor and its lowering rules, the value / string / printf / to_string models, the RFC 8259 and '
+          '%g grammars written as specification. Bounded (never counted as proved): float syntax (%g texts <= 13 characters = the whole grammar), strings '
+          '<= 2 bytes and containers <= 2 elements end to end. Not decided: numeric accuracy of floats, operator<=> / deep copy, agreement with another '
+          'implementation beyond the RFC grammar, the inductions that compose the pieces. Depends on the C05 repairs of JSON::parse for the clauses '
+          '"strict mode accepts [] and {}" (C05-1) and "exponent-form numbers parse as floats" (C05-2).'),
+    technique=('function and loop contracts (requires/ensures/assigns, loop invariants with ghost indices and lock-step ghost folds) enforced with '
+               'goto-instrument --dfcc on mechanically extracted, exception-lowered C text; lemmas over contracts by call replacement; discharged by cbmc '
+               '(SAT/SMT portfolio)'),
+)
 
 
 # ---------------------------------------------------------------------------------------------------------------------
